@@ -746,7 +746,7 @@ Proof.
       destruct (hex4 (firstn 4 t')) as [c|] eqn:Hx; [|discriminate].
       destruct ((c <? 0xD800) || (0xE000 <=? c)) eqn:Ec.
       + destruct (parse_chars f (skipn 4 t')) as [[cs' r']|] eqn:P; [|discriminate].
-        cbn in H. inversion H; subst. destruct (IH _ _ _ P) as [body [E J]].
+        unfold ocons in H. inversion H; subst. destruct (IH _ _ _ P) as [body [E J]].
         exists ([0x5C; 0x75] ++ firstn 4 t' ++ body). split.
         * rewrite <- (firstn_skipn 4 t') at 1. rewrite E. cbn [app]. rewrite <- !app_assoc. reflexivity.
         * apply JC_u; auto. lia.
@@ -756,7 +756,7 @@ Proof.
         destruct (hex4 (firstn 4 t'')) as [lo|] eqn:Hx2; [|discriminate].
         destruct ((0xDC00 <=? lo) && (lo <? 0xE000)) eqn:Elo; [|discriminate].
         destruct (parse_chars f (skipn 4 t'')) as [[cs' r']|] eqn:P; [|discriminate].
-        cbn in H. inversion H; subst. destruct (IH _ _ _ P) as [body [E J]].
+        unfold ocons in H. inversion H; subst. destruct (IH _ _ _ P) as [body [E J]].
         exists ([0x5C; 0x75] ++ firstn 4 t' ++ [0x5C; 0x75] ++ firstn 4 t'' ++ body). split.
         * rewrite <- (firstn_skipn 4 t') at 1. rewrite Sk.
           rewrite <- (firstn_skipn 4 t'') at 1. rewrite E.
@@ -765,13 +765,13 @@ Proof.
         * apply JC_upair; auto; lia.
     - destruct (esc2 e) as [c|] eqn:E2; [|discriminate].
       destruct (parse_chars f t') as [[cs' r']|] eqn:P; [|discriminate].
-      cbn in H. inversion H; subst. destruct (IH _ _ _ P) as [body [E J]].
+      unfold ocons in H. inversion H; subst. destruct (IH _ _ _ P) as [body [E J]].
       exists (0x5C :: e :: body). split; [rewrite E; reflexivity|].
       apply JC_esc2; auto. apply esc2_table_spec; auto. }
   destruct (b <? 0x20) eqn:E20; [discriminate|].
   destruct (go_decode_rune (b :: t)) as [[c n]|] eqn:D; [|discriminate].
   destruct (parse_chars f (skipn n (b :: t))) as [[cs' r']|] eqn:P; [|discriminate].
-  cbn in H. inversion H; subst. destruct (IH _ _ _ P) as [body [E J]].
+  unfold ocons in H. inversion H; subst. destruct (IH _ _ _ P) as [body [E J]].
   destruct (go_decode_rune_sound _ _ _ D) as [HU [Hn Hp]].
   exists (firstn n (b :: t) ++ body). split.
   - rewrite <- (firstn_skipn n (b :: t)) at 1. rewrite E, <- app_assoc. reflexivity.
